@@ -52,6 +52,10 @@ theorem wp_modify {Q : Unit → Session → Prop} {s} (f : Session → Session) 
   obtain ⟨_, rfl⟩ := hr
   exact h
 
+/-- stepping over a call about whose result nothing is needed -/
+theorem wp_forall {α} {Q : α → Session → Prop} {s} {act : M α} (h : ∀ a s', Q a s') : wp act Q s :=
+  fun a s' _ => h a s'
+
 theorem wp_mono {α} {Q Q' : α → Session → Prop} {s} {act : M α}
     (h : wp act Q' s) (hq : ∀ a s', Q' a s' → Q a s') : wp act Q s :=
   fun a s' hr => hq a s' (h a s' hr)
